@@ -75,11 +75,11 @@ def run(ctx):
     known_ids = {f["id"] for f in kf["findings"] if f["property"] == "C09"}
     repo = c.REPO
     ctx.assumptions += [
-        "undefined behaviour is observable only through hook H2 (cfg concordium_base_verif: bounds assertions next to every unchecked access of machine.rs) and catch_unwind; machine safety is correspondence-only (no theorem over Machine.v)",
+        "undefined behaviour of the COMPILED code is observable only through hook H2 (cfg concordium_base_verif: bounds assertions next to every unchecked access of machine.rs) and catch_unwind; machine safety is correspondence-only (no theorem over Machine.v); safety on the reference semantics is proved (accepted_never_stuck)",
         "the parser (parse.rs) is not modelled except for its LEB128 readers and the table/memory limit checks: parser totality and section handling are exercised (byte/LEB/section mutants, random bytes, corpus), not proved",
         "the model keeps each control frame's operands inside the frame (data refinement of the single operand vector with frame heights); equality of verdict and max height with the implementation is checked on every structured case",
-        "import/export name tables of the v0/v1 validators are checked against an independently written table in the harness (implementation-only oracle), not modelled in Coq",
-        "type soundness is proved for the reference semantics Wasm/Sem.v under well-typed host functions (hypothesis host_ok)",
+        "import/export name tables of the v0/v1 validators: transcribed in Wasm/Imports.v and tied query by query (every validate_import_function / validate_export_function call of the harness is also answered by the extracted Coq tables), plus an independently written expectation table in the harness",
+        "type soundness is proved for the reference semantics Wasm/Sem.v under well-typed host functions (hypothesis host_ok); the decoding of the binary into the structured module (corresponds vm m) is a hypothesis of accepted_never_stuck",
     ]
     # 0. translator ------------------------------------------------------------------------------
     spec = importlib.util.spec_from_file_location("gen_limits", os.path.join(c.VERIF, "translators", "gen_limits.py"))
